@@ -221,8 +221,9 @@ fn parse(text: &str, allow_substvar: bool) -> Parse {
 
                 if self.current() == Some(IDENT) {
                     self.bump();
-                    // An epoch ("1:2.0-1") is lexed as IDENT COLON IDENT
-                    if self.current() == Some(COLON) {
+                    // An epoch ("1:2.0-1") is lexed as IDENT COLON IDENT; with an epoch the
+                    // upstream version may hold further colons ("1:2:3")
+                    while self.current() == Some(COLON) {
                         self.bump();
                         if self.current() == Some(IDENT) {
                             self.bump();
